@@ -160,8 +160,9 @@ def main(argv):
     known = load_known()
     listed = {k["key"]: k for k in known.get("findings", []) if k["property"] == pid}
     new_sigs = [s for s in total["violations"] if s not in listed]
-    os.makedirs(os.path.join(VERIF, "evidence"), exist_ok=True)
-    rdir = os.path.join(VERIF, "replay", pid)
+    evdir = os.environ.get("VERIF_EVIDENCE_DIR") or os.path.join(VERIF, "evidence")
+    os.makedirs(evdir, exist_ok=True)
+    rdir = os.path.join(os.environ.get("VERIF_REPLAY_DIR") or os.path.join(VERIF, "replay"), pid)
     lines = []
     for key, k in listed.items():
         n = total["viol_count"].get(key, 0)
@@ -209,7 +210,7 @@ def main(argv):
         "violations": sum(total["viol_count"][s] for s in new_sigs),
         "verdict": "violated" if new_sigs else ("inconclusive" if total["inconclusive"] else "held on what was observed"),
     }
-    with open(os.path.join(VERIF, "evidence", pid + ".json"), "w") as f:
+    with open(os.path.join(evdir, pid + ".json"), "w") as f:
         json.dump(ev, f, indent=1, default=str, ensure_ascii=False)
     for ln in lines:
         print(ln)
